@@ -178,15 +178,33 @@ def walk_cond(e, conds=()):
             yield from walk_cond(v, conds)
 
 
-def pipeline(body, local_id):
+MUTATING = {"retain", "retain_mut", "push", "insert", "remove", "clear", "truncate", "extend", "append", "sort", "sort_by", "sort_unstable", "drain", "pop", "dedup",
+            "swap_remove", "shift_remove", "reverse", "rotate_left", "rotate_right", "swap", "split_off", "resize", "fill"}
+
+
+def _root_local_id(e):
+    cur = strip(e)
+    while cur.get("k") in ("Field", "Index"):
+        cur = strip(cur["e"])
+    if cur.get("k") == "Path" and cur.get("res", {}).get("r") == "local":
+        return cur["res"]["id"]
+    return None
+
+
+def pipeline(body, local_id, mutations=False):
     """Ordered list of (conds, summary) of the values given to a local: its initialiser and every assignment;
-    in the summaries the local itself appears as ('local', name, id)."""
+    in the summaries the local itself appears as ('local', name, id).  With mutations=True, in-place changes (a mutating method on the
+    local or on one of its fields, an assignment to one of its fields) are steps too: ('call', 'mutate:<method>', args)."""
     steps = []
     for n, conds in walk_cond(body):
         if n.get("k") == "LetStmt" and n["pat"].get("p") == "Bind" and n["pat"]["id"] == local_id and "init" in n:
             steps.append((conds, summ(n["init"]), n))
         elif n.get("k") == "Assign" and local_id_of(n["l"]) == local_id:
             steps.append((conds, summ(n["r"]), n))
+        elif mutations and n.get("k") in ("Assign", "AssignOp") and strip(n["l"]).get("k") in ("Field", "Index") and _root_local_id(n["l"]) == local_id:
+            steps.append((conds, ("call", "mutate:assign-field", (summ(n["r"]),)), n))
+        elif mutations and n.get("k") == "MethodCall" and n.get("method") in MUTATING and _root_local_id(n["recv"]) == local_id:
+            steps.append((conds, ("call", "mutate:%s" % n["method"], tuple(summ(a) for a in n.get("args", []))), n))
     return steps
 
 
